@@ -290,14 +290,21 @@ def work(task):
 
 def label_set_sessions(path, image, answers, base, visited, w, cmds, probe, pname, sieve, stats):
     """breakpoints asked for BY LABEL: every subset of three existing and three unknown labels (sorting before / between /
-    after them) through get_breakpoint_handler; the debugger stops exactly at the existing ones."""
+    after them) through get_breakpoint_handler; the debugger stops exactly at the existing ones. done twice in the same process
+    and on the same debug-file path: the program is "re-assembled" in between (the same names at other addresses)."""
+    from fjv.enginecheck import scratch
+    vs = [visited[min(k, len(visited) - 1)] for k in range(4)]
+    dbg = scratch() / f'c15-{w}-labels.fjd'
+    for rot in (0, 1):
+        table = {'lab_b': vs[(0 + rot) % 4], 'main.lab_c': vs[(1 + rot) % 4], 'lab_a': vs[(2 + rot) % 4], 'never': max(visited) + 4 * w,
+                 'f1:l3:m(1)---x': vs[(3 + rot) % 4], 'f1:l4:mx1)---y': max(visited) + 6 * w}
+        _label_set_sessions(dbg, table, path, image, answers, base, visited, w, cmds, probe, pname, sieve, stats)
+
+
+def _label_set_sessions(dbg, table, path, image, answers, base, visited, w, cmds, probe, pname, sieve, stats):
     from flipjump.interpreter.debugging.breakpoints import get_breakpoint_handler
     from flipjump.utils.functions import save_debugging_labels
-    from fjv.enginecheck import scratch
     from fjv.asm import quiet
-    table = {'lab_b': visited[0], 'main.lab_c': visited[min(1, len(visited) - 1)], 'lab_a': visited[min(2, len(visited) - 1)], 'never': max(visited) + 4 * w,
-             'f1:l3:m(1)---x': visited[min(3, len(visited) - 1)], 'f1:l4:mx1)---y': max(visited) + 6 * w}
-    dbg = scratch() / f'c15-{w}-labels.fjd'
     save_debugging_labels(dbg, table)
     names = ['lab_a', 'lab_b', 'main.lab_c', 'Lab_a', 'lab_', 'zz_none']
     cont = [i for i, c in enumerate(cmds) if c[0] == 'c'][0]
